@@ -32,6 +32,7 @@ import (
 	"sync"
 	"syscall"
 	"time"
+	"verifharness/ports"
 
 	"github.com/prometheus/client_golang/prometheus"
 	dto "github.com/prometheus/client_model/go"
@@ -478,14 +479,7 @@ type conn struct {
 	labDn  string
 }
 
-func freeAddr() string {
-	l, err := net.Listen("tcp", "127.0.0.1:0")
-	if err != nil {
-		panic(err)
-	}
-	defer l.Close()
-	return l.Addr().String()
-}
+func freeAddr() string { return "127.0.0.1:" + strconv.Itoa(ports.Free()) }
 
 // census counts the goroutines that are running toxiproxy code, by role.
 var stackBuf = make([]byte, 1<<22)
@@ -794,6 +788,7 @@ func (e *Engine) Run(ops []string, res *report.Result) *report.Failure {
 		line := op
 		connectRes := "-"
 		replacedAddr := ""
+		replacedNow := false // this very populate replaced the proxy object (listen or upstream differ)
 		var exec func()
 		switch f[0] {
 		case "upstream":
@@ -877,6 +872,7 @@ func (e *Engine) Run(ops []string, res *report.Result) *report.Failure {
 					p.Lock()
 					differs := p.Listen != addr || p.Upstream != w.upAddr[f[2]]
 					p.Unlock()
+					replacedNow = differs
 					if differs {
 						for _, cn := range w.conns {
 							if cn.proxy == f[1] {
@@ -1217,7 +1213,7 @@ func (e *Engine) Run(ops []string, res *report.Result) *report.Failure {
 				break
 			}
 		}
-		if wantsProp("C03") && f[0] == "populate" && replacedAddr != "" {
+		if wantsProp("C03") && f[0] == "populate" && replacedAddr != "" && replacedNow {
 			// a replaced proxy is really down: unless the replacement listens on the same address,
 			// the old address refuses; the connections made through the old proxy have ended
 			// (replaced = the entry differs in listen address or upstream from what the proxy had)
@@ -1346,21 +1342,6 @@ func (w *world) replacedOracle(i int, fail func(int, string, string, string, str
 	newListen, newUp := p.Listen, p.Upstream
 	p.Unlock()
 	_ = newUp
-	// was it replaced at all? the harness knows the upstream the old connections went to:
-	// ask the connections (a proxy that was left alone keeps them open, which is fine)
-	replaced := false
-	for _, n := range w.corder {
-		c := w.conns[n]
-		if c.proxy == pname && c.labUp != "" && !strings.HasSuffix(c.labUp, ","+w.symOf(newUp)) {
-			replaced = true
-		}
-	}
-	if newListen != oldAddr {
-		replaced = true
-	}
-	if !replaced {
-		return nil
-	}
 	if !(newEnabled && newListen == oldAddr) {
 		if c, err := net.DialTimeout("tcp", oldAddr, 300*time.Millisecond); err == nil {
 			c.Close()
